@@ -623,8 +623,11 @@ where
                     }
                 }
             }
-            Instruction::Next => todo!(),
-            Instruction::Last => todo!(),
+            // Not implemented; reject instead of panicking the host on a
+            // hand-built or corrupted module.
+            Instruction::Next | Instruction::Last => {
+                return Err(self.err(MachineErrorType::InvalidInstruction));
+            }
             Instruction::Call(t) => match t {
                 Target::Unresolved(label) => {
                     return Err(self.err(MachineErrorType::UnresolvedTarget(label)));
